@@ -22,7 +22,7 @@ from .core import Unsupported
 from .e1_srcmodel import dotted
 from .e2_eval import AutoEvaluator, Unknown, is_unknown, DictValue, const_from_node
 from .sem import unfn
-from .c04_txt import (Bad, is_bad, is_rat, single_atom, atom_id, sym_name, strconst, const_int, Lit, Fld, Txt, PosV, as_txt, percent_format,
+from .c04_txt import (Bad, is_bad, is_rat, single_atom, atom_id, sym_name, strconst, const_int, Lit, Fld, Txt, PosV, as_txt, percent_format, strish,
                       make_field, brace_format, Star, PackV, StructV, BoundV, DtypeV, BytesV, Stream, Item, parse_struct, pack_items, unpack_items,
                       CODE_SIZE)
 
@@ -885,6 +885,11 @@ class OP4Eval(AutoEvaluator):
             return SliceV(*[None if p is None else self._ev(p) for p in (node.lower, node.upper, node.step)])
         if t in (ast.ListComp, ast.GeneratorExp):
             return self.comprehension(node)
+        if t is ast.Lambda:
+            fdef = ast.FunctionDef(name="<lambda>", args=node.args, body=[ast.Return(value=node.body)], decorator_list=[], returns=None, type_comment=None)
+            ast.copy_location(fdef, node)
+            ast.copy_location(fdef.body[0], node)
+            return FuncV(fdef, closure=self.env, qual=f"{self.qual}.<lambda>")
         return Unknown(f"node {t.__name__}")
 
     def comprehension(self, node):
@@ -1146,6 +1151,9 @@ class OP4Eval(AutoEvaluator):
         for a in node.args:
             if isinstance(a, ast.Starred):
                 v = self.ev(a.value)
+                if isinstance(v, tuple):
+                    pos.extend(v)          # *(a, b, c): the elements themselves
+                    continue
                 pos.append(v if is_unknown(v) else Star(v))
             else:
                 pos.append(self.ev(a))
@@ -1448,7 +1456,14 @@ class OP4Eval(AutoEvaluator):
                 return F.const(-1) if method == "find" else Unknown(f"index({a!r}) of a text that does not hold it")
             return F.const(r.minabs) if c is not None else r
         if method in ("ljust", "rjust", "center") and len(pos) == 1 and is_rat(pos[0]):
-            return Txt([Fld(t if c is None else Txt([Lit(c)]), "s", pos[0], None, {"ljust": "<", "rjust": ">", "center": "^"}[method], "")])
+            al = {"ljust": "<", "rjust": ">", "center": "^"}[method]
+            if c is None and len(t.p) == 1 and isinstance(t.p[0], Fld) and t.p[0].width is None:
+                x = t.p[0]             # one value printed without a width: the same value in a field of that width
+                return Txt([Fld(x.v, x.conv, pos[0], x.prec, al, x.flags)])
+            return Txt([Fld(t if c is None else Txt([Lit(c)]), "s", pos[0], None, al, "")])
+        if method == "split" and not pos and not kw:
+            r = t.split_ws()
+            return r if r is not None else Unknown(f"split() of {t!r}")
         if method == "split":
             a = sarg(0)
             if a is None:
@@ -1508,6 +1523,18 @@ class OP4Eval(AutoEvaluator):
                     return F.const(int(x.const_value()))
                 return F.fn("call:int", x)
             return x if is_unknown(x) else Unknown("int of a non-text")
+        if name == "str" and n == 1 and not kw:
+            t = as_txt(pos[0])
+            if t is not None:
+                return t
+            if is_rat(pos[0]) and not strish(pos[0]):
+                return Txt([Fld(pos[0])])          # str(number): the default rendering
+        if name == "format" and n in (1, 2) and not kw and (is_rat(pos[0]) or isinstance(pos[0], Txt)):
+            spec = as_txt(pos[1]) if n == 2 else Txt()
+            if spec is not None:
+                f = make_field(pos[0], spec if spec.p else None)
+                if not is_unknown(f):
+                    return f
         if name == "len" and n == 1:
             x = pos[0]
             if isinstance(x, tuple):
